@@ -101,7 +101,7 @@ class World:
 
 
 def gen_history(r, mixed):
-    files = ['f0', 'f1']
+    files = ['f0', 'f1'] + (['f2', 'f3'] if mixed else [])
     grams = ['3.7', '3.10']
     cds = ['a', 'b']
     h = []
@@ -113,9 +113,13 @@ def gen_history(r, mixed):
         f, g = r.choice(files), r.choice(grams)
         return (f, g, r.choice(cds) if mixed else cd_of[(f, g)])
     main = mk()
+    p_main = r.choice([0.7, 0.7, 0.3, 0.0])
+    one_grammar = r.random() < 0.4
     for _ in range(r.randint(3, 12)):
         k = r.random()
-        key = main if r.random() < 0.7 else mk()
+        key = main if r.random() < p_main else mk()
+        if one_grammar:
+            key = (key[0], main[1], key[2] if mixed else cd_of[(key[0], main[1])])
         if k < 0.5:
             w = [0, 0, 0]
             if r.random() < 0.35:
@@ -135,14 +139,27 @@ def gen_history(r, mixed):
     return h
 
 
-def run_history(h, root):
+def run_history(h, root, gc_trigger=None):
     """returns list of observations for parse steps: (step index, key, start version, end version, served content version or None, fresh_equal)"""
     shutil.rmtree(root, ignore_errors=True)
     W = World(root)
-    for f in ('f0', 'f1'):
+    for f in ('f0', 'f1', 'f2', 'f3'):
         W.write(f)
     pcache.parser_cache.clear()
     obs = []
+    old_trigger = pcache._CACHED_SIZE_TRIGGER
+    if gc_trigger is not None:
+        # make the in-memory garbage collection (normally at 600 entries) reachable: every entry whose file was not
+        # modified during the last 10 minutes is then evicted whenever a new one is stored
+        pcache._CACHED_SIZE_TRIGGER = gc_trigger
+    try:
+        return _run_history(h, W, obs)
+    finally:
+        pcache._CACHED_SIZE_TRIGGER = old_trigger
+        pcache.parser_cache.clear()
+
+
+def _run_history(h, W, obs):
     for i, op in enumerate(h):
         if op[0] == 'write':
             W.write(op[1])
@@ -256,7 +273,7 @@ def run(ctx, b, drv):
         for i in range(base.scale(ctx, 100)):
             r = gens.rng(ctx.seed, 'cache-mixed', i)
             h = gen_history(r, mixed=True)
-            obs, W = run_history(h, root)
+            obs, W = run_history(h, root, gc_trigger=r.choice([None, 1, 2, 3]))
             ctx.count('cache-mixed-histories')
             ctx.nontrivial(('cache-mixed', tuple(h)))
             check_obs(ctx, h, obs, W, 'cache-mixed', i)
